@@ -12,6 +12,8 @@ import traceback
 from . import tree
 
 VERIF = os.path.dirname(os.path.dirname(os.path.abspath(__file__)))
+# sensitivity runs against seeded mutants redirect their evidence/replay output so /verif stays clean
+OUTROOT = os.environ.get("VERIF_OUTDIR") or VERIF
 def _default_jobs():
     if os.environ.get("VERIF_JOBS"):
         return int(os.environ["VERIF_JOBS"])
@@ -174,8 +176,8 @@ def write_evidence(ctx, nviol):
         "coverage": cov, "assumptions": ctx.assumptions,
         "wall_s": round(time.time() - ctx.t0, 2), "violations": int(nviol),
     }
-    os.makedirs(os.path.join(VERIF, "evidence"), exist_ok=True)
-    path = os.path.join(VERIF, "evidence", ctx.pid + ".json")
+    os.makedirs(os.path.join(OUTROOT, "evidence"), exist_ok=True)
+    path = os.path.join(OUTROOT, "evidence", ctx.pid + ".json")
     tmp = path + ".tmp"
     with open(tmp, "w") as f:
         json.dump(ev, f, indent=1, default=repr, sort_keys=False)
@@ -185,7 +187,7 @@ def write_evidence(ctx, nviol):
 
 
 def save_replay(pid, bucket, case, what):
-    d = os.path.join(VERIF, "replays", pid)
+    d = os.path.join(OUTROOT, "replays", pid)
     os.makedirs(d, exist_ok=True)
     blob = json.dumps({"property": pid, "bucket": bucket, "what": what, "case": case},
                       indent=1, sort_keys=True, default=repr)
